@@ -115,7 +115,7 @@ CHECKS = {
     'C16': dict(
         technique='runtime monitoring: before/after state monitor around every injected call (full PTRACE_GETREGS/GETFPREGS of all threads, text diff, maps, red zone bytes, the callee\'s own argument log) plus output differential against the native run',
         text='At stops in a leaf with locals below rsp, in a loop, in live floating point code, in a worker thread and with the main thread blocked '
-             'in a futex,  with boundary literals must add exactly one entry with exactly those arguments to the log the functions '
+             'in a futex, `call f a1..an` with boundary literals must add exactly one entry with exactly those arguments to the log the functions '
              'write and leave registers of every thread (incl. orig_rax and the FXSAVE area), code bytes, the memory map and the 128 bytes below rsp '
              'identical; impossible calls (unknown function, wrong arity, string/float literal, ill-typed argument) must fail with identical state; '
              'the program then produces its native output; vard equals the program\'s own {:?} lines. Held after the red-zone fix commit.',
@@ -131,6 +131,17 @@ CHECKS = {
              'without a new request); non-PIE after the fix commit.',
         note='Trusted: /proc/<pid>/maps, nm symbol values and sizes, the library\'s SeqCst hit counter, the native run.',
         ref='DESIGN.md §4 C18'),
+    'C12': dict(
+        technique='runtime monitoring: offline protocol checker over the recorded byte stream of the real adapter (own framing parser; request/response matching, sequence order, event exactly-once and causal order) under stress output, thread churn and seeded delay points between sequence allocation and transport write',
+        text='Seeded histories of 12-60 requests from a DAP grammar (valid, ill-formed arguments: missing / ill-typed / huge / negative, repeated, '
+             'out-of-order, pipelined, pre-emptive cancel, after program exit) against the real bs adapter over TCP while the debuggee prints bursts '
+             'of stdout/stderr around every stop and starts and joins threads; the wire stream must have sequence numbers 1,2,3,... in wire order, '
+             'exactly one response per request with matching request_seq and command, one `stopped` per resume or pause, exited before '
+             'terminated, nothing after terminated, thread start before use and exit once, and an error response (then a working `threads` canary) '
+             'for every ill-formed request. Held after the sequence fix except the two known findings.',
+        note='Trusted: the monitor\'s framing parser and bookkeeping of what it sent. Evidence reports messages, output events and the adjacency kinds '
+             'of response/event/output messages observed.',
+        ref='DESIGN.md §4 C12'),
     'C06': dict(
         technique='runtime monitoring: structural comparison of the debugger\'s Value trees with the debuggee\'s own canonical self-description (reference model = safe Rust in the program)',
         text='Generated programs hold ~40 variables each (locals, statics, thread-locals, arguments) from a recursive type grammar with boundary '
